@@ -338,6 +338,9 @@ def has_literal_requirements(b):
 def run(rep):
     M.install_substitute_contract()
     M.NODE_MONITOR.install()
+    if rep.shard == 0 and rep.tier != 'quick':
+        # the repository's own tests with the contract on
+        common.run_repo_tests_monitored(rep, ('substitute:',))
     ck = Checker(rep)
     rng = ck.rng
     quick = rep.tier == 'quick'
